@@ -216,6 +216,9 @@ def may_not_terminate(src):
         f = ln.split()
         if len(f) >= 2 and f[1] == b"macro":
             inside += 1
+            # parameter names: an instruction taken from a parameter can be any macro (indirect recursion)
+            for prm in b" ".join(f[2:]).replace(b",", b" ").split():
+                names.add(prm.split(b"=")[0].strip(b"{}"))
             continue
         if f and f[0] == b"endm" or (len(f) >= 2 and f[1] == b"endm"):
             inside = max(0, inside - 1)
